@@ -26,7 +26,19 @@ def run(c):
     d = L.build_pipeline(c.tier, c.seed)
     L.evaluate(c, PROP, d)
     pred, mut = M.CONTROLS[PROP]
-    c.set("negative_control_current_metadata", L.negative_control(d, c.seed, pred, mut))
+    # the shared mutator corrupts ledger l1 only; in a multi-ledger case whose metadata write targets another ledger
+    # the corruption is rejected by the frame predicate instead: pick another accepted case (the control still has to
+    # be rejected by the C17 predicate on some case, else INCONCLUSIVE)
+    nc, last = None, None
+    for k in range(6):
+        try:
+            nc = L.negative_control(d, c.seed + 7919 * k, pred, mut)
+            break
+        except vlib.Inconclusive as e:
+            last = e
+    if nc is None:
+        raise last
+    c.set("negative_control_current_metadata", nc)
     seq_traces = c.cov.get("traces_validated_against_impl", 0)
     # history half
     R.run_reads_check(c, PROP)
